@@ -181,6 +181,8 @@ func workerMain() {
 		var ms0, ms1 runtime.MemStats
 		runtime.ReadMemStats(&ms0)
 		cpu0 := cpuTime()
+		cpu1 := cpu0
+		ms1 = ms0
 		func() {
 			defer func() {
 				if r := recover(); r != nil {
@@ -188,6 +190,10 @@ func workerMain() {
 				}
 			}()
 			err, v, ex := decoders[parts[0]](exact)
+			// the decode alone is measured (re-encoding a value nested d deep costs d times its size
+			// in this library's style of encoding - not the parser's business)
+			runtime.ReadMemStats(&ms1)
+			cpu1 = cpuTime()
 			if ex == "neither" {
 				outcome = 5
 				return
@@ -216,15 +222,13 @@ func workerMain() {
 		if extra == "" {
 			extra = "-"
 		}
-		// memory proportional to the input: everything allocated by the decode (and the re-encode of
-		// its result) against 512 bytes per input byte plus 256 KiB (decoding a 64 KiB frame of 5-byte match fields allocates about 130 bytes per input byte, re-encoding and the field dump included)
-		runtime.ReadMemStats(&ms1)
+		// memory proportional to the input: everything allocated by the decode against 512 bytes per input byte plus 256 KiB (decoding a 64 KiB frame of 5-byte match fields allocates about 130 bytes per input byte)
 		if alloc := ms1.TotalAlloc - ms0.TotalAlloc; outcome < 2 && alloc > uint64(len(b))*512+256<<10 {
 			outcome, extra = 4, fmt.Sprintf("allocated_%d_MiB_for_%d_bytes", alloc>>20, len(b))
 		}
 		// time proportional to the input: processor time of this process (not wall-clock time, which
 		// depends on what else the machine is doing) against 30 microseconds per input byte plus 0.4 s
-		if cpu := cpuTime() - cpu0; outcome < 2 && cpu > time.Duration(len(b))*30*time.Microsecond+400*time.Millisecond {
+		if cpu := cpu1 - cpu0; outcome < 2 && cpu > time.Duration(len(b))*30*time.Microsecond+400*time.Millisecond {
 			outcome, extra = 3, fmt.Sprintf("cpu_%d_ms_for_%d_bytes", cpu.Milliseconds(), len(b))
 		}
 		fmt.Fprintf(out, "%d %s %s %d %s\n", outcome, hex.EncodeToString(re)+".", extra, lenv, chash)
